@@ -31,19 +31,29 @@ RULE = ("runs of 0-6 groups x 1-8 scripted tests (pass / fail once / fail severa
         ":raw cases = streams written by a Python writer and then mutated (deleted / inserted / replaced bytes) plus hand-written "
         "malformed messages, read by the Coq parser and by the independent decoder. "
         "non-trivial = some text contains a character with TeamCity meaning, or the run has a failure, an ignored test or more "
-        "than one group (for :raw: always)")
+        "than one group (for :raw: always). "
+        "Every run is observed at one of three sinks: a subclass that overrides printBuffer (the earlier test double), the PlatformSpecificFPuts / "
+        "PlatformSpecificFlush seam under the REAL ConsoleTestOutput::printBuffer, or file descriptor 1 under the real platform functions; quiet, -v or -vv. "
+        "Long values: few tests in which one or two of group name / test name / test's path / failure's path / failure message have 0..5000 characters "
+        "(lengths at and next to the multiples of 64 / 128 / 256 / 512 / 1024, and 150..700), plain / every character needing escaping / characters needing "
+        "escaping within 3 of every multiple of 64 of a randomly shifted offset; a fixed grid of every value position x lengths around which a message line "
+        "crosses 256 / 512 / 1024 bytes; runs of 20-60 (thorough 200) tests and tests with 25 failures (many messages in a row); '%' and printf-like "
+        "fragments in the texts. :rawv = mutated streams with text in front of messages, read message-anywhere by both decoders.")
 ASSUMPTIONS = ["tests of a run come from the registry in order; selection only by strict name filters (no group filters, no shuffling, no separate "
                "process; repeat and run-ignored are in the scenario); test bodies do not print "
                "(UT_PRINT text is copied raw into the stream and is outside the property)",
                "strings are C strings (no NUL); line numbers and the duration are size_t",
                "the clock seam is scripted (the duration value is not constrained by the property, only its quoting)",
-               "a service message is recognised only at the start of a line (TeamCity documentation: one message per line)"]
+               "a service message is recognised only at the start of a line (TeamCity documentation: one message per line); in a very verbose (-vv) "
+               "run, whose progress texts do not end in a line break, wherever the marker first occurs in a line - it must still end the line",
+               "standard output is what the library hands to PlatformSpecificFPuts for PlatformSpecificStdOut (sink 1) or what is in the file behind "
+               "descriptor 1 after the output object is destroyed and stdio is flushed as exit() does (sink 2); flush points are not constrained"]
 PER_TIMEOUT = 30.0
 CRASH_IS_VIOLATION = True
 
 SPECIAL = b"'|[]\r\n"
 FRAGS = [b"|n", b"|r", b"|'", b"||", b"|[", b"|]", b"']", b"']\n", b"' x='", b"]\n##teamcity[", b"##teamcity[", b"\r\n", b"|0x00A7", b"|x",
-         b"''", b"[]", b"][", b" ", b"  ", b"name='", b"|", b"\n\n", b"\r", b"='", b"(", b"):", b":"]
+         b"''", b"[]", b"][", b" ", b"  ", b"name='", b"|", b"\n\n", b"\r", b"='", b"(", b"):", b":", b"%", b"%s", b"%%", b"%d%n"]
 
 
 def text(rng, maxlen=12, p_special=0.35):
@@ -257,7 +267,7 @@ def gen_ri(rng, big=False):
 LONG_LENS = [0, 1, 2, 31, 32, 33, 62, 63, 64, 65, 100, 126, 127, 128, 129, 150, 180, 190, 200, 210, 220, 224, 225, 226, 230, 240, 250, 254, 255, 256,
              257, 258, 300, 383, 384, 385, 500, 510, 511, 512, 513, 514, 600, 767, 768, 769, 1000, 1022, 1023, 1024, 1025, 1026, 1500, 2000, 2047,
              2048, 2049, 3000, 4000, 4095, 4096, 4097, 4999, 5000]
-PLAIN = b"abcdefghijklmnopqrstuvwxyzABCXYZ0123456789_.:/ -#"
+PLAIN = b"abcdefghijklmnopqrstuvwxyzABCXYZ0123456789_.:/ -#%"
 
 
 def long_text(rng, n, style=None):
@@ -265,12 +275,19 @@ def long_text(rng, n, style=None):
     (offset + shift) mostly need escaping (shift = length of whatever precedes the value in its line, unknown to the generator:
     random); mixed: a tenth need escaping anywhere"""
     style = style or rng.choice(["plain", "dense", "edges", "edges", "edges", "mixed", "mixed"])
-    shift = rng.randrange(0, 64)
-    out = bytearray()
-    for i in range(n):
-        near = (i + shift) % 64 in (61, 62, 63, 0, 1, 2)
-        p = {"plain": 0.0, "dense": 1.0, "mixed": 0.1}.get(style, 0.75 if near else 0.02)
-        out.append(rng.choice(SPECIAL) if rng.random() < p else rng.choice(PLAIN))
+    if style == "dense":
+        return bytes(rng.choices(SPECIAL, k=n))
+    out = bytearray(rng.choices(PLAIN, k=n))
+    if style == "plain" or n == 0:
+        return bytes(out)
+    if style == "mixed":
+        where = rng.sample(range(n), (n + 9) // 10)
+    else:
+        shift = rng.randrange(0, 64)
+        where = [b + d for b in range(-shift, n + 3, 64) for d in (-3, -2, -1, 0, 1, 2) if 0 <= b + d < n and rng.random() < 0.75]
+        where += rng.sample(range(n), n // 50)
+    for i in where:
+        out[i] = rng.choice(SPECIAL)
     return bytes(out)
 
 
@@ -428,20 +445,20 @@ def generate(tier, rng):
     quick = tier == "quick"
     out = [with_con(x, CONS[k % len(CONS)]) for k, x in enumerate(corpus_like())]
     out += [":raw " + tb(x) for x in RAW_FIXED] + [":rawv " + tb(x) for x in RAW_FIXED + RAWV_FIXED]
-    n = 400 if quick else 40000
+    n = 400 if quick else 22000
     for k in range(n):
         out.append(with_con(gen_run(rng, special=(k % 10 != 0), big=(not quick and k % 50 == 0)), rand_con(rng)))
-    for k in range(250 if quick else 20000):
+    for k in range(250 if quick else 12000):
         out.append(gen_raw(rng))
-    for k in range(120 if quick else 8000):
+    for k in range(120 if quick else 4000):
         out.append(gen_raw(rng, anywhere=True))
     out += [with_con(x, CONS[(k + 3) % len(CONS)]) for k, x in enumerate(ri_grid())]
-    for k in range(120 if quick else 8000):
+    for k in range(120 if quick else 5000):
         out.append(with_con(gen_ri(rng, big=(not quick and k % 40 == 0)), rand_con(rng)))
     out += long_grid()
-    for k in range(170 if quick else 6000):
+    for k in range(170 if quick else 2500):
         out.append(gen_long(rng, big=(not quick and k % 4 == 0)))
-    for k in range(12 if quick else 400):
+    for k in range(12 if quick else 300):
         out.append(gen_many(rng, big=(not quick and k % 20 == 0)))
     return out
 
@@ -856,12 +873,21 @@ LEVEL_TEXT = ("Machine-checked (Coq) theorems over an executable model of TeamCi
               "(testIgnored iff the test is ignored and not run, a flagged test's body not executed and without testFailed, every other selected test's body "
               "executed once, one testFailed per failure in order with text and locations decoded to the originals); the run options are applied to a shell "
               "before anything is reported about it, so under run-ignored the observation equals that of the registry with the ignored markers removed; "
-              "the two pre-repair behaviours (D15) are refuted. Tied to the code by a differential run of the extracted model against a real TeamCityTestOutput (printBuffer captured) driven by a real "
+              "the two pre-repair behaviours (D15) are refuted. The stream is modelled as the pieces handed to printBuffer (one per literal / number, one per "
+              "character of an escaped value) sent through ConsoleTestOutput::printBuffer (a write and a flush per piece): what reaches standard output is the "
+              "concatenation of the pieces, ANY chunking / buffering that preserves that concatenation gives the same observation (flush points free), a line "
+              "buffer of any capacity that keeps every character does, the one that forgets the character which finds the buffer full (255 usable bytes) is "
+              "refuted with a 230-character test name; -v adds nothing, the -vv progress texts add only text (read message-anywhere the stream gives the "
+              "same messages; the message-anywhere reading agrees with the strict one wherever the strict one accepts). "
+              "Tied to the code by a differential run of the extracted model against a real TeamCityTestOutput - observed below a printBuffer override, at the "
+              "PlatformSpecificFPuts / PlatformSpecificFlush seam under the real console path, and on a redirected file descriptor 1 - driven by a real "
               "TestRegistry::runAllTests over scripted UtestShell / IgnoredUtestShell shells that count the executions of their bodies, "
               "judged by the extracted spec and independently by a regular-expression decoder written from the TeamCity documentation; the two decoders are "
               "also compared on mutated streams.")
 LEVEL_NOTE = ("Trusted: Coq kernel, extraction, harness, generators, the Python decoder. Modelled not verified: the C++ itself; StringFrom(size_t) is "
-              "modelled as decimal digits; the clock is scripted by the harness. Not covered: text printed by test bodies (copied raw into the stream), the "
+              "modelled as decimal digits; the clock is scripted by the harness; fputs / fflush / the kernel below file descriptor 1 are exercised, not modelled; "
+              "the wording and places of the -vv progress texts are mirrored for the build with exceptions but not judged (text outside messages is dropped "
+              "from the comparison). Not covered: text printed by test bodies (copied raw into the stream), the summary / 'Test run i of n' text, the "
               "TeamCity escapes |x |l |p |0xNNNN and the single-value message form (never written; both decoders reject them), group / non-strict filters, "
               "shuffling, reversing, separate-process runs, other TestOutput classes.")
 TECHNIQUE = "Coq proof over hand-written executable model (writer + service-message parser round trip) + extracted-model/implementation correspondence check with an independent decoder as second judge"
